@@ -249,6 +249,12 @@ fn text_checks(rep: &mut Report, orc: &mut Oracle, rng: &mut Rng, m: &StMoc, cas
       if !model.starts_with("OK") || asciix::hex(s1.as_bytes()) != model_hex {
         rep.corr_break("cellmoc2d_to_json_aladin writes other characters than the character-level model", &format!("{} # {}", req, shown), &format!("{:?}", s1), &model.chars().take(300).collect::<String>(), "src/deser/json.rs cellmoc2d_to_json_aladin == Model/JsonCodec.v st_to_json");
       }
+      asciix::compare_reader_json_2d(rep, orc, s1, "written");
+      if s1.len() < 3000 {
+        for d in asciix::json_mutations(rng, s1, 3) {
+          asciix::compare_reader_json_2d(rep, orc, &d, "mutated");
+        }
+      }
     }
     match r {
       Ok(Ok((back, s1, s2))) => {
@@ -274,6 +280,9 @@ pub fn run(ctx: &Ctx) -> Report {
   let mut orc = Oracle::spawn();
   let mut rng = Rng::new(ctx.seed);
   rep.rule = "valid ST-MOCs (0, 1, many elements; multi-range time parts; time indices in the highest usable bits = top of the time domain; unoccupied deepest levels: declared depths deeper than occupied) ; FITS v2 through both writers for u64, and for u32 / u16 when the depths fit (structure, data bytes vs row/byte model, read back, re-serialisation identical); ASCII x {fold None,20,80} x {a-b, a+len}; JSON x {fold None,40}. non-trivial = >= 1 element; distinct = distinct ST-MOC".to_string();
+  for doc in asciix::crafted_json_2d() {
+    asciix::compare_reader_json_2d(&mut rep, &mut orc, &doc, "crafted");
+  }
   for doc in asciix::crafted_2d() {
     asciix::compare_reader_2d(&mut rep, &mut orc, &doc, "crafted");
   }
